@@ -86,7 +86,7 @@ func c17Pattern(e *Env) {
 	// the pattern buffer: the one whose String() is compiled last
 	var compile *ssa.Call
 	for _, c := range core.CallsNamed(f, "regexp.Compile") {
-		if sc, ok := core.Arg(c, 0).(*ssa.Call); ok && (core.CalleeName(sc) == "bytes.Buffer.String" || core.CalleeName(sc) == "strings.Builder.String") {
+		if sc, ok := core.Resolve(core.Arg(c, 0)).(*ssa.Call); ok && (core.CalleeName(sc) == "bytes.Buffer.String" || core.CalleeName(sc) == "strings.Builder.String") {
 			compile = c.(*ssa.Call)
 		}
 	}
@@ -94,7 +94,7 @@ func c17Pattern(e *Env) {
 		e.R.Fail(rule, "mux.newRouteRegexp:compiles-buffer", e.fpos(f), "the route regexp is not compiled from the pattern buffer")
 		return
 	}
-	buf := core.Resolve(core.Arg(core.Arg(compile, 0).(*ssa.Call), 0))
+	buf := core.Resolve(core.Arg(core.Resolve(core.Arg(compile, 0)).(*ssa.Call), 0))
 	onBuf := func(c ssa.CallInstruction, argIdx int) bool { return core.Resolve(core.Arg(c, argIdx)) == buf }
 	var writes []ssa.CallInstruction
 	var first, last ssa.CallInstruction
